@@ -122,6 +122,8 @@ def run(ctx):
     ctx.rule = "instances = 36 kind pairs × (outcome vs ECMA-262, symmetry) + negation/binding facts + conversion facts; non-trivial = every pair decided by specialisation"
     ctx.trusted = ["spec/arms/abstract_eq.json transcribes ECMA-262 7.2.14 for JSON kinds", "serde_json::Number::as_f64", "the string form (to_string) is C16's business", "Rust's f64 parser on decimal literals"]
     spec = json.load(open(os.path.join(VERIF, "spec", "arms", "abstract_eq.json")))["matrix"]
+    from . import manifest as _MF
+    _MF.same_library_clause(ctx, "K2.number-model")
     cfgs = ["default"] if ctx.tier == "quick" else ["default", "python", "wasm"]
     for cfg in cfgs:
         facts = ctx.facts(cfg)
